@@ -90,7 +90,8 @@ fn generate(rng: &mut Rng) -> C14Sc {
         let effective = if proxy.is_some() { format!("198.51.100.{}:{}", 20 + i, 50000 + i) } else { peer.clone() };
         let role = match rng.below(if use_start { 9 } else { 10 }) {
             0 if rng.chance(1, 4) => Role::HighBitLen { high: *rng.pick(&[1i32 << 21, 1 << 28, 1 << 30]) },
-            0 | 1 => Role::FrameLen { len: if rng.chance(1, 2) { max_frame } else { max_frame + 1 } },
+            // (254, 382, 510: lengths whose prefix starts with the byte 0xFE, the pre-1.7 "legacy ping")
+            0 | 1 => Role::FrameLen { len: if max_frame >= 254 && rng.chance(1, 4) { *rng.pick(&[254, 382, 510]).min(&max_frame) } else if rng.chance(1, 2) { max_frame } else { max_frame + 1 } },
             2 | 3 => Role::Cookie {
                 age_s: match rng.below(4) {
                     0 => expiry.saturating_sub(1),
